@@ -344,6 +344,48 @@ KOpt == TCls("KOpt", << Fld("s_a", TOpt(TInt), DefVal(MkInt(5))), Fld("s_b", TUn
              <<"struct", "tuple">>, "struct")
 ClsLeaves == { KAlias, KInNames, KRenameF, KExcl, KKw, KInit, KInitT, KFac, KHook, KHookF, KExtra, KTup, KTupKw, KNest, KOpt }
 
+(* C15: the naming rules.  A class is written with a SPELLING (class-level rename styles, per-field    *)
+(* rename / aliases / in_names / out_name) and the rules below derive each field's input names and    *)
+(* output name from it (docs/using/dataclasses.md, pane.field): out name = field out_name, else field *)
+(* rename, else the class out-style applied to the Python name, else the Python name; input names =   *)
+(* (rename,), or (Python name, aliases..), or in_names as given, or the class in-styles applied to    *)
+(* the Python name, or (Python name,).                                                                *)
+StyleTok(style, tok) ==
+  CASE tok = "s_ab_cd" -> (CASE style = "snake" -> "s_ab_cd" [] style = "camel" -> "s_abCd" [] style = "pascal" -> "s_AbCd"
+                             [] style = "kebab" -> "s_ab_cd_k" [] style = "scream" -> "s_AB_CD")
+    [] tok = "s_x" -> (IF style \in {"pascal", "scream"} THEN "s_X" ELSE "s_x")
+NoFS == [k |-> "plain", to |-> "", names |-> <<>>, outname |-> ""]
+NameIns(n, fsp, csp) ==
+  CASE fsp.k = "rename"   -> <<fsp.to>>
+    [] fsp.k = "aliases"  -> <<n>> \o fsp.names
+    [] fsp.k = "in_names" -> fsp.names
+    [] OTHER -> IF csp.ins = <<>> THEN <<n>> ELSE [i \in DOMAIN csp.ins |-> StyleTok(csp.ins[i], n)]
+NameOut(n, fsp, csp) ==
+  IF fsp.outname # "" THEN fsp.outname
+  ELSE IF fsp.k = "rename" THEN fsp.to
+  ELSE IF csp.out # "none" THEN StyleTok(csp.out, n) ELSE n
+ClassSpells == { [how |-> "none", ins |-> <<>>, out |-> "none"] }
+  \cup { [how |-> "rename", ins |-> <<st>>, out |-> st] : st \in {"camel", "pascal", "kebab", "scream"} }
+  \cup { [how |-> "in_out", ins |-> <<"snake", "camel">>, out |-> "none"],
+         [how |-> "in_out", ins |-> <<>>, out |-> "camel"],
+         [how |-> "in_out", ins |-> <<"camel">>, out |-> "pascal"] }
+FieldSpells == { NoFS, [NoFS EXCEPT !.k = "aliases", !.names = <<"s_w">>], [NoFS EXCEPT !.k = "in_names", !.names = <<"s_w", "s_v">>],
+                 [NoFS EXCEPT !.k = "rename", !.to = "s_w"], [NoFS EXCEPT !.outname = "s_W"],
+                 [NoFS EXCEPT !.k = "aliases", !.names = <<"s_w">>, !.outname = "s_w"] }
+BModes == {"plain", "kw", "exclude"}
+Layouts == { [inf |-> <<"struct">>, outf |-> "struct"], [inf |-> <<"struct", "tuple">>, outf |-> "struct"],
+             [inf |-> <<"struct", "tuple">>, outf |-> "tuple"] }
+NamedCls(csp, fsp, bmode, lay, extra) ==
+  [k |-> "cls", name |-> "KN",
+   fs |-> << FldX("s_ab_cd", TInt, NoDef, "F", NameIns("s_ab_cd", fsp, csp), NameOut("s_ab_cd", fsp, csp), "F", "T"),
+             FldX("s_x", TStr, DefVal(MkStr("s_b")), IF bmode = "kw" THEN "T" ELSE "F",
+                  NameIns("s_x", NoFS, csp), NameOut("s_x", NoFS, csp), IF bmode = "exclude" THEN "T" ELSE "F", "T") >>,
+   inf |-> lay.inf, outf |-> lay.outf, extra |-> extra, hook |-> NoHook,
+   spell |-> [cls |-> csp, flds |-> <<fsp, NoFS>>]]
+NameLeaves == { NamedCls(csp, fsp, bm, lay, "F") : csp \in ClassSpells, fsp \in FieldSpells, bm \in BModes, lay \in Layouts }
+              \cup { NamedCls(csp, fsp, "plain", lay, "T") : csp \in ClassSpells, fsp \in {NoFS, [NoFS EXCEPT !.k = "aliases", !.names = <<"s_w">>]}, lay \in Layouts }
+NameLeavesAll == { NamedCls(csp, fsp, bm, lay, ex) : csp \in ClassSpells, fsp \in FieldSpells, bm \in BModes, lay \in Layouts, ex \in {"F", "T"} }
+
 (* C04: adversarial leaves *)
 ClsHook(c) == [TCls("KH", << Fld("s_a", TInt, NoDef), Fld("s_b", TInt, DefVal(MkInt(5))) >>, <<"struct", "tuple">>, "struct")
                  EXCEPT !.hook = [k |-> "rejectif", f |-> "s_a", c |-> c]]
@@ -371,6 +413,8 @@ Leaves ==
     [] Focus = "tagged"  -> TaggedLeaves
     [] Focus = "cls"     -> ClsLeaves
     [] Focus = "construct" -> ClsLeaves
+    [] Focus = "names"   -> NameLeaves
+    [] Focus = "namesall" -> NameLeavesAll
 
 Wrap(T) ==
   { TSeq(k, T) : k \in SeqKinds }
@@ -389,7 +433,7 @@ WrapFew(T) ==
 WrapOf(T, d) ==
   CASE Focus = "matrix" -> Contexts(T)
     [] Focus \in {"unionq", "uniont"} -> UnionNest(T)
-    [] Focus \in {"condq", "condt", "exc", "tagged", "cls"} -> WrapFew(T)
+    [] Focus \in {"condq", "condt", "exc", "tagged", "cls", "names", "namesall"} -> WrapFew(T)
     [] OTHER -> IF d = 0 \/ OuterWrap = "all" THEN Wrap(T) ELSE WrapFew(T)
 
 (* C14: constructions of a class: which init fields are supplied, how many of them positionally, *)
